@@ -39,6 +39,8 @@ def multi_statement(seed, i):
     for j in range(rng.randrange(3, 7)):
         body.append(rng.choice([
             lambda: "x = %s;" % op(),
+            lambda: "(%s);" % op() if op().startswith(("{", "function", "class", "`")) else "%s;" % op(),
+            lambda: "%s += %s;" % (rng.choice(["this.a.b", "o.list[k].t", "q(o)[k]", "o[k + 1]", "o.p", "x", "o[i++].v", "(o.p.q)"]), rng.choice(["x", "f2()", "'lit'", "a + b"])),
             lambda: "log(a, b, %s);" % rng.choice(["k", "o.p", "'who'", "r"]),
             lambda: "const v%d = %s;" % (j, op()),
             lambda: "if (%s) {\n    y = %s;\n  }" % (op(), op()),
